@@ -8,9 +8,11 @@ import CtyModel.Convert
 namespace CtyModel
 namespace Msgpack
 
-/-- `Marshal(val, ty)` including its non-conforming path -/
+/-- `Marshal(val, ty)` including its non-conforming path; since /repo e88f24e a value
+that contains a mark anywhere is refused BEFORE the conversion is attempted -/
 def marshalC (E : Ext) (C : Convert.Env) (fuel : Nat) (v : Value) (ct : Ty) : Res Item :=
-  if Ty.conformErrs ct v.ty ≠ 0 then
+  if v.containsMarked then .err "value has marks, so it cannot be serialized"
+  else if Ty.conformErrs ct v.ty ≠ 0 then
     match Convert.convert C fuel v ct with
     | .ok v' => marshalV E v' ct
     | .err e => .err e
